@@ -19,6 +19,7 @@ XIXI_BUGS = [
     ('AdoptPinnedOrder', dict(Features='{"merge", "crash", "restart", "delete"}', MaxOps=3, MaxFaults=2, Vals='{1}', BigVals='{}'), ['RecoveredOK', 'NeverFails']),
     ('OpenLeaksLock', dict(Features='{"powerloss", "torn"}', MaxOps=2, MaxFaults=1, MaxMerges=0, MaxRestarts=0, Bug2='"TornTailFails"'), ['LockDiscipline']),
     ('TornTailFails', dict(Features='{"powerloss", "torn"}', MaxOps=2, MaxFaults=1, MaxMerges=0, MaxRestarts=0), ['NeverFails']),
+    ('MergeMarksUnflushed', dict(Features='{"merge", "delete", "powerloss", "restart"}', MaxOps=3, MaxFaults=1, Vals='{1, 2}', BigVals='{}'), ['RecoveredOK']),
     ('BatchFlushPublishes', dict(Features='{"batch", "delete", "merge", "crash"}', MaxOps=4, MaxFaults=1, MaxRestarts=0, Vals='{1}', BigVals='{}'), ['RecoveredOK']),
 ]
 
